@@ -366,10 +366,86 @@ def run_signatures(w) -> None:
             loaded.unload()
 
 
+RECURSION_SOURCE = '''
+import icontract
+
+ENTERED = []
+
+
+@icontract.require(lambda n: n >= 0)
+{a}def countdown(n):
+    """Preconditions only (no postcondition); calls itself from its body."""
+    ENTERED.append(("countdown", n))
+    if n != 0:
+        return {w}countdown(n - 2)
+    return 0
+
+
+@icontract.require(lambda n: n >= 0)
+@icontract.require(lambda n: n < 100)
+{a}def even(n):
+    ENTERED.append(("even", n))
+    return True if n == 0 else {w}odd(n - 3)
+
+
+@icontract.require(lambda n: n >= 0)
+{a}def odd(n):
+    ENTERED.append(("odd", n))
+    return False if n == 0 else {w}even(n - 3)
+
+
+class Node:
+    def __init__(self, value, nxt=None):
+        self.value, self.nxt = value, nxt
+
+    @icontract.require(lambda self: self.value >= 0)
+    {a}def walk(self):
+        ENTERED.append(("walk", self.value))
+        return 0 if self.nxt is None else 1 + {w}self.nxt.walk()
+'''
+
+
+def run_recursion_from_body(w) -> None:
+    """Calls of a function made from its own body (directly, through another function, on another object) are calls like any other:
+    a violated precondition keeps the body from running."""
+    import icontract  # pylint: disable=import-outside-toplevel
+
+    for is_async in (False, True):
+        loaded = prog.load_source(RECURSION_SOURCE.format(a="async " if is_async else "", w="await " if is_async else ""), w.scratch())
+        mod = loaded.module
+        try:
+            for tag, call, want_entered in (
+                    ("recursion", lambda: mod.countdown(3), [("countdown", 3), ("countdown", 1)]),
+                    ("mutual-recursion", lambda: mod.even(7), [("even", 7), ("odd", 4), ("even", 1)]),
+                    ("same-method-of-another-object", lambda: mod.Node(1, mod.Node(2, mod.Node(-3, mod.Node(4)))).walk(), [("walk", 1), ("walk", 2)])):
+                del mod.ENTERED[:]
+                try:
+                    res = call()
+                    if is_async:
+                        res = probe.drive(res)
+                    outcome = "returned {!r}".format(res)
+                except icontract.ViolationError:
+                    outcome = "violation"
+                except BaseException as err:  # pylint: disable=broad-except
+                    outcome = "raised {}: {}".format(type(err).__name__, str(err)[:100])
+                w.count("pre_evaluations", len(want_entered) + 1)
+                w.count("calls_pre_false")
+                w.count("recursive_calls_from_body")
+                w.case(("recursion-from-body", tag, is_async))
+                if outcome != "violation" or list(mod.ENTERED) != want_entered:
+                    w.violation("C01/body-entered", "{}{}: {}; bodies entered {} (the nested call with violating arguments must be refused before its body; "
+                                "expected {})".format("async " if is_async else "", tag, outcome, list(mod.ENTERED), want_entered),
+                                {"recursion": tag, "async": is_async})
+        finally:
+            loaded.unload()
+
+
 def run(w) -> None:
     w.exhaustive = False
     if w.shard == 0:
         run_signatures(w)
+    if w.shard == 1 % w.nshards:
+        run_recursion_from_body(w)
     for prog_spec, pending in programs(w):
         w.count("programs")
         run_program(w, prog_spec, pending)
@@ -378,6 +454,9 @@ def run(w) -> None:
 def replay(case, w) -> None:
     if "signature" in case:
         run_signatures(w)
+        return
+    if "recursion" in case:
+        run_recursion_from_body(w)
         return
     prog_spec = case["prog"]
     model = Model(prog_spec)
